@@ -39,3 +39,4 @@ pub broadcast group std_axioms { vec_len_bound }
 pub assume_specification<T> [<[T]>::swap] (s: &mut [T], a: usize, b: usize)
     requires a < old(s)@.len(), b < old(s)@.len()
     ensures final(s)@ == old(s)@.update(a as int, old(s)@[b as int]).update(b as int, old(s)@[a as int]);
+pub assume_specification [isize::unsigned_abs] (x: isize) -> (r: usize) ensures r == (if x >= 0 { x as int } else { -(x as int) });
